@@ -36,11 +36,17 @@ MUTATOR_CALLS = {"append", "appendleft", "insert", "pop", "popleft", "popitem", 
 
 
 def own_methods(c: Cls) -> List[Func]:
+    """the repository's methods an instance of ``c`` can run: first definition along the MRO wins (shadowed ones are left out,
+    unless something reaches them through super(), which the inlining of the entry points covers)"""
     out = []
+    seen: Set[str] = set()
     for k in c.repo_mro():
-        if k.is_external:
-            continue
-        for f in k.methods.values():
+        for name, f in k.methods.items():
+            if name in seen:
+                continue
+            seen.add(name)
+            if k.is_external:
+                continue
             if f.self_name is not None and not f.is_abstract:
                 out.append(f)
     return out
